@@ -38,6 +38,7 @@ type FuncContract struct {
 	Pos      string
 	File     string
 	Havoc    []string // extra components havocked by a trusted function
+	NoRead   []*Node  // read frame: locations that must not be read
 }
 
 type CaseContract struct {
@@ -141,7 +142,7 @@ type cline struct {
 
 var topKeywords = map[string]bool{"spec": true, "lemma": true, "axiom": true, "ghost": true, "func": true, "closed": true, "guarded": true, "pred": true}
 var clauseKeywords = map[string]bool{"requires": true, "ensures": true, "modifies": true, "loop": true, "use": true, "case": true,
-	"assert": true, "using": true, "hint": true, "havoc": true}
+	"assert": true, "using": true, "hint": true, "havoc": true, "noread": true}
 
 func (c *Contracts) parseFile(path string) error {
 	data, err := os.ReadFile(path)
@@ -335,6 +336,16 @@ func (c *Contracts) parseFile(path string) error {
 				return fmt.Errorf("%s: %v", it.pos, err)
 			}
 			curFunc.Modifies = append(curFunc.Modifies, ns...)
+		case "noread":
+			// read frame: locations the function must not read (provenance of exported values)
+			if curFunc == nil {
+				return fmt.Errorf("%s: noread outside func", it.pos)
+			}
+			ns, err := parseExprList(rest)
+			if err != nil {
+				return fmt.Errorf("%s: %v", it.pos, err)
+			}
+			curFunc.NoRead = append(curFunc.NoRead, ns...)
 		case "havoc":
 			if curFunc == nil {
 				return fmt.Errorf("%s: havoc outside func", it.pos)
